@@ -58,6 +58,8 @@ def same_box(got, want) -> bool:
         return type(got) is type(want) and gcp_same(got, want)
     if not hasattr(got, "affine"):
         return False
+    if want.crs is not None and (got.crs is None or not got.crs.proj.equals(want.crs.proj)):
+        return False  # the same CRS by pyproj's strict comparison, not merely one the library calls equal
     return gen.gbox_close(got, want, 1e-6) and (got.crs is None) == (want.crs is None)
 
 
@@ -91,7 +93,17 @@ def make_box(rng: random.Random):
     res = rng.choice([10.0, 0.25, 30.0, 0.01, 0.5, 1 / 3]) if crs != "EPSG:4326" else rng.choice([0.01, 0.25, 0.001, 1 / 3600])
     mag = rng.choice([0, 1e3, 1e5, 1e6]) if crs != "EPSG:4326" else rng.choice([0, 10, 60])
     g, fam = gen.geobox(rng, crs=crs, shp=shp, res=res, mag=mag)
+    if crs is not None and crs != "EPSG:4326" and int(abs(g.affine.c) * 7 + g.shape[0] * 3 + g.shape[1]) % 5 == 0:
+        # user-defined CRSs (a PROJ string / custom WKT no authority lists, some of which merely resemble a registered CRS): what comes back through .odc must be that CRS
+        from odc.geo.geobox import GeoBox
+
+        custom = gen.CUSTOM_RASTER_CRS + ["+proj=aea +lat_0=0 +lon_0=132 +lat_1=-18 +lat_2=-36 +x_0=0 +y_0=0 +ellps=GRS80 +units=m +no_defs", "+proj=longlat +datum=WGS84 +no_defs"]
+        g = GeoBox(g.shape, g.affine, custom[(g.shape[0] + 2 * g.shape[1]) % len(custom)])
+        CUSTOM["n"] += 1
     return g, fam
+
+
+CUSTOM = {"n": 0}
 
 
 def wrap(rng: random.Random, g, rank: str, backing: str):
@@ -179,7 +191,7 @@ def case_history(mon: Monitor, rng: random.Random) -> None:
             return
         if e is not None or gg is None:
             return mon.fail("history", wit({"exc": e, "geobox": None}), key="history-geobox-lost", cls=cls)
-        if tuple(gg.shape) != (len(iy), len(ix)) or gg.crs != g.crs:
+        if tuple(gg.shape) != (len(iy), len(ix)) or gg.crs != g.crs or (g.crs is not None and not gg.crs.proj.equals(g.crs.proj)):
             return mon.fail("history", wit({"shape": list(gg.shape), "crs": str(gg.crs)}), key="history-shape-crs", cls=cls)
         # every remaining element sits where its original pixel was
         jj, ii = np.meshgrid(np.arange(len(ix)) + 0.5, np.arange(len(iy)) + 0.5)
